@@ -131,6 +131,22 @@ func genC10(prop string, r *sim.Rng, i int) *c10Case {
 	} else {
 		c.Kind = "telnet"
 		rounds := 1 + r.Intn(3)
+		if r.Chance(1, 3) {
+			// irregular dialogues: the device re-asks for the password alone, or for the user name
+			// between two password prompts (each credential is still bounded per OPEN, not per round)
+			rounds = 0
+			n := 2 + r.Intn(5)
+			for k := 0; k < n; k++ {
+				t := sim.LoginTurn{Kind: "pass", Text: r.Pick(pwTexts)}
+				if k == 0 || r.Chance(1, 3) {
+					t = sim.LoginTurn{Kind: "user", Text: r.Pick(userTexts)}
+				}
+				if k == 0 {
+					t.Banner = r0(banners, r)
+				}
+				c.Turns = append(c.Turns, t)
+			}
+		}
 		for k := 0; k < rounds; k++ {
 			u := sim.LoginTurn{Kind: "user", Text: r.Pick(userTexts)}
 			if k == 0 {
